@@ -13,6 +13,8 @@ import MinizProof.Gen.All
 import MinizProof.Spec.Inflate
 import MinizProof.Lemmas.Finite
 import MinizProof.Props.C02
+import MinizProof.Props.C03
+import MinizProof.Lemmas.EncDynamic
 set_option maxRecDepth 1000000
 open Fin'
 
@@ -151,5 +153,114 @@ theorem emitted_codes_fit_the_bit_buffer :
             (codeMax + C02.maxOf Gen.DeflCore.LEN_EXTRA + codeMax +
               max (C02.maxOf Gen.DeflCore.SMALL_DIST_EXTRA) (C02.maxOf Gen.DeflCore.LARGE_DIST_EXTRA)) ≤ 64 ∧
     codeMax ≤ 15 ∧ G.idx Gen.DeflCore.DYN_CODE_SIZE_LIMITS 2 ≤ 7 := C02.lz_bitbuffer_never_overflows
+
+/-! ### An encoder specification, and the reference decoder inverts it
+
+Everything the checks conclude about compressed data rests on the Lean reference decoder
+(`Spec.inflateSpec`): it defines "valid" and "the plaintext". To make it more than a text to be
+believed, here is the other direction of RFC 1951 written down independently — canonical code
+assignment (first code of each length + rank), tokens as symbols with extra-bit values, static and
+dynamic blocks with their headers, the code-length alphabet with ANY run-length coding of the code
+lengths — and the proof that the reference decoder reads every such encoding back to exactly the
+LZ77 expansion of its tokens (`Lemmas/HuffCanon, EncTokens, EncBlocks, EncDynamic`). With C03 the
+decoder MODEL then decodes every conforming encoding, too. "The stream holds these bits" is the
+predicate `HasBits`; nothing is assumed about what follows them. -/
+open Model.Core Spec in
+/-- THE REFERENCE DECODER INVERTS THE CANONICAL CODE (RFC 1951 §3.2.2): for every set of code lengths
+    that is not over-subscribed and every symbol `s` with a non-zero length `L ≤ 15`, if the stream
+    holds from bit `pos` the `L` bits of `canonCode lens s` (first code of length `L` + rank of `s`
+    among the symbols of that length), most significant first, then the counting decoder returns `s`
+    and the position right after them; and that code fits `L` bits. -/
+theorem canonical_code_round_trip (lens : Array Nat) (data : Array UInt8) (pos s r : Nat) (hs : s < lens.size)
+    (hk : kraftLeft (countLens lens) = some r) (h1 : 1 ≤ lens.getD s 0) (h15 : lens.getD s 0 ≤ 15)
+    (hbits : ∀ i, i < lens.getD s 0 → bitAt data (pos + i) = some (codeBit (canonCode lens s) (lens.getD s 0) i)) :
+    decodeSym (mkCode lens) data pos = .sym s (pos + lens.getD s 0) ∧ canonCode lens s < 2 ^ lens.getD s 0 :=
+  canonical_code_is_decoded lens data pos s r hs hk h1 h15 hbits
+
+open Model.Core in
+/-- the blocks an encoder may write: static-Huffman, or dynamic-Huffman with a well-formed header -/
+inductive StdBlock : EncBlock → Prop
+  | static (final : Bool) (toks : List SymTok) : StdBlock (encStatic final toks)
+  | dynamic (final : Bool) (h : DynHdr) (toks : List SymTok) : h.Ok → StdBlock (encDynamic final h toks)
+
+open Model.Core in
+/-- a well-formed stream of such blocks: tokens expressible with the block's codes, every match
+    reaching back over bytes that exist (at most `maxDist`), exactly the last block marked final -/
+def StreamOk (maxDist : Nat) : Array UInt8 → List EncBlock → Prop
+  | _, [] => False
+  | out, [b] => b.final = true ∧ StdBlock b ∧ ToksOk b.litLens b.distLens #[] maxDist out b.toks
+  | out, b :: b' :: rest => b.final = false ∧ StdBlock b ∧ ToksOk b.litLens b.distLens #[] maxDist out b.toks ∧
+      StreamOk maxDist (expandToks #[] out b.toks) (b' :: rest)
+
+open Model.Core in
+theorem StdBlock.decodes {b : EncBlock} (h : StdBlock b) (maxDist : Nat) : b.Decodes #[] maxDist ∧ b.bits ≠ [] := by
+  cases h with
+  | static final toks =>
+    refine ⟨encStatic_decodes #[] maxDist final toks, fun hh => ?_⟩
+    have := congrArg List.length hh
+    simp [encStatic, bitsLE_length] at this
+  | dynamic final hd toks hok =>
+    refine ⟨encDynamic_decodes #[] maxDist final hd hok toks, fun hh => ?_⟩
+    have := congrArg List.length hh
+    simp [encDynamic, bitsLE_length] at this
+
+open Model.Core in
+theorem StreamOk.blocksOk (maxDist : Nat) : ∀ (bs : List EncBlock) (out : Array UInt8), StreamOk maxDist out bs →
+    BlocksOk #[] maxDist out bs := by
+  intro bs
+  induction bs with
+  | nil => intro out h; exact h
+  | cons b rest ih =>
+    intro out h
+    cases rest with
+    | nil =>
+      obtain ⟨hf, hs, ht⟩ := h
+      exact ⟨hf, (hs.decodes maxDist).2, (hs.decodes maxDist).1, ht⟩
+    | cons b' rest' =>
+      obtain ⟨hf, hs, ht, hr⟩ := h
+      exact ⟨hf, (hs.decodes maxDist).2, (hs.decodes maxDist).1, ht, ih _ hr⟩
+
+open Model.Core Spec in
+/-- THE REFERENCE DECODER INVERTS THE ENCODER SPECIFICATION: a byte string that holds, from its first
+    bit, the bits of any well-formed sequence of static and dynamic blocks — any tokens, any valid
+    code lengths, any run-length coding of them in the header — is accepted by `Spec.inflateSpec`
+    with exactly the LZ77 expansion of the tokens as its plaintext and exactly those bits consumed,
+    whatever follows. -/
+theorem deflate_encoding_round_trip (maxDist : Nat) (data : Array UInt8) (bs : List EncBlock)
+    (hok : StreamOk maxDist #[] bs) (h : HasBits data 0 (blocksBits bs)) :
+    ∃ res, inflateSpec #[] maxDist data 0 = .accept res ∧ res.out = expandBlocks #[] #[] bs ∧
+      res.bitsUsed = (blocksBits bs).length :=
+  inflateSpec_enc maxDist data bs (hok.blocksOk maxDist bs #[]) h
+
+open Model.Core Spec in
+/-- … AND SO DOES THE DECODER MODEL (with C03): one call on such a byte string, flat buffer with room
+    for the expansion, reports `Done`, has written exactly the expansion and consumed exactly the
+    encoding (rounded up to a byte). -/
+theorem decoder_model_decodes_every_conforming_encoding (data out : Array UInt8) (budget flags : Nat) (bs : List EncBlock)
+    (hflat : hasFlag flags fNonWrapping = true) (hz : hasFlag flags fParseZlib = false)
+    (hstop : hasFlag flags fStopOnBlockBoundary = false)
+    (hok : StreamOk 32768 #[] bs) (h : HasBits data 0 (blocksBits bs))
+    (hroom : (expandBlocks #[] #[] bs).size ≤ min budget out.size) :
+    (decompress {} data out 0 budget flags).status = stDone ∧
+    (decompress {} data out 0 budget flags).written = (expandBlocks #[] #[] bs).size ∧
+    (decompress {} data out 0 budget flags).consumed = ((blocksBits bs).length + 7) / 8 ∧
+    (∀ i, i < (expandBlocks #[] #[] bs).size →
+      (decompress {} data out 0 budget flags).out[i]? = (expandBlocks #[] #[] bs)[i]?) := by
+  obtain ⟨res, hacc, hout, hbits⟩ := deflate_encoding_round_trip 32768 data bs hok h
+  have := C03.valid_raw_stream_decodes_one_shot {} data out 0 budget flags 32768 res rfl ⟨rfl, rfl, rfl⟩ hflat hz hstop
+    (Nat.zero_le _) (by simpa using hacc) (by rw [hout]; simpa using hroom)
+  rw [hout, hbits] at this
+  obtain ⟨a1, a2, a3, a4⟩ := this
+  exact ⟨a1, a2, a3, fun i hi => by have := a4 i hi; rwa [Nat.zero_add] at this⟩
+
+-- non-vacuity: a final static block "a", then a match of length 4 at distance 1; 4b 04 01 00 holds its bits
+open Model.Core in
+example : HasBits #[0x4b, 0x04, 0x01, 0x00] 0 (blocksBits [encStatic true [.lit 97, .copy 258 0 0 0]]) := by
+  intro i hi
+  have hlen : (blocksBits [encStatic true [.lit 97, .copy 258 0 0 0]]).length = 30 := by decide +kernel
+  rw [hlen] at hi
+  have : ∀ j, j < 30 → Spec.bitAt #[0x4b, 0x04, 0x01, 0x00] (0 + j) =
+      some ((blocksBits [encStatic true [SymTok.lit 97, SymTok.copy 258 0 0 0]]).getD j 0) := by decide +kernel
+  exact this i hi
 
 end C10
